@@ -96,6 +96,15 @@ LEAVES = {
                             [["eq(0,%s) & lt(p2,%s) => Result::Ok{1} | p1.asset_share_value := %s" % (ASV, TOT, ASV), "le(%s,p2) => Result::Ok{1} | p1.asset_share_value := 0" % TOT,
                               "lt(p2,%s) & ne(0,%s) => Result::Ok{0} | p1.asset_share_value := %s" % (TOT, ASV, ASV)]],
                             "loss >= total deposits: share value 0 and kill; otherwise share value = (total - loss) / shares, kill iff that is zero"),
+    "drift.scale_deposit_limit": ({"name": "scale_drift_deposit_limit", "crate": "drift_mocks"},
+                                  [["eq(9,p2) => Result::Ok{from_num(p1)} | -", "le(9,p2) & ne(9,p2) => checked_div(from_num(p1),EXP_10_I80F48[sub(p2,9)]) | -", "lt(p2,9) & ne(9,p2) => checked_mul(EXP_10_I80F48[sub(9,p2)],from_num(p1)) | -"],
+                                   ["le(9,p2) => checked_div(from_num(p1),EXP_10_I80F48[sub(p2,9)]) | -", "lt(p2,9) => checked_mul(EXP_10_I80F48[sub(9,p2)],from_num(p1)) | -"]],
+                                  "native deposit limit -> Drift 9-decimal units: * 10^(9-d) for d < 9, / 10^(d-9) for d > 9, unchanged for d = 9"),
+    "general.is_integration_asset_tag": ({"name": "is_integration_asset_tag", "crate": "marginfi"}, [["p1 == 3 => 1 | -", "p1 == 4 => 1 | -", "p1 == 5 => 1 | -", "p1 notin [3, 4, 5] => 0 | -"]],
+                                         "integration tags are exactly Kamino (3), Drift (4), Solend (5)"),
+    "panic_cache.update": ({"name": "update_from_panic_state", "crate": "marginfi_type_crate"},
+                           [["always => const | p1.last_cache_update := p3, p1.pause_flags := p2.pause_flags, p1.pause_start_timestamp := p2.pause_start_timestamp"]],
+                           "the group's cached pause state is a verbatim copy of the fee state's flags and start time, stamped with the propagation time"),
     "group.program_fees_enabled": ({"name": "program_fees_enabled", "crate": "marginfi"}, [["always => ne(0,bitand(1,p1.group_flags)) | -"], ["always => eq(bitand(1,p1.group_flags),1) | -"]], "PROGRAM_FEES_ENABLED (bit 0) of group_flags"),
     "balance.is_empty": ({"name": "is_empty", "self_adt": "Balance"}, [["discr(p2)@BalanceSide == 0 => lt(p1.asset_shares,%s) | -" % ONE, "discr(p2)@BalanceSide == 1 => lt(p1.liability_shares,%s) | -" % ONE]], "a side is empty iff its shares < EMPTY_BALANCE_THRESHOLD (1)"),
     "balance.get_side": ({"name": "get_side", "self_adt": "Balance"}, [["le(%s,p1.asset_shares) & lt(p1.liability_shares,%s) => Option::Some{BalanceSide::Assets{}} | -" % (ONE, ONE),
